@@ -108,24 +108,47 @@ func init() {
 
 // c18Tree writes the input tree of the incremental-generation cases; `edited` names the book whose data
 // gets one more row (version 2 of the input).
-func c18Tree(w *workspace, edited string) {
+//
+// `kind` says what else version 2 changes in the edited book: "data" nothing, "shrink" version 1 had two more
+// columns (the schema file gets shorter), "grow" version 2 has two more columns.
+func c18Tree(w *workspace, edited string, kind ...string) {
+	k := "data"
+	if len(kind) > 0 {
+		k = kind[0]
+	}
+	v2 := edited != "" && !strings.HasPrefix(edited, "v1:")
+	target := strings.TrimPrefix(edited, "v1:")
 	extra := func(book string, row []string) [][]string {
-		if book == edited {
+		if book == target && v2 {
 			return [][]string{row}
 		}
 		return nil
 	}
+	curBook := ""
 	mapRows := func(name string, ids []int, more [][]string) [][]string {
 		rows := [][]string{{"ID", "Name"}, {"map<uint32, " + name + "Item>", "string"}, {"id", "name"}}
 		for _, id := range ids {
 			rows = append(rows, []string{itoa(int64(id)), "n" + itoa(int64(id))})
 		}
-		return append(rows, more...)
+		rows = append(rows, more...)
+		if curBook == target && ((k == "shrink" && !v2) || (k == "grow" && v2)) {
+			rows[0] = append(rows[0], "Description", "ReleaseTime")
+			rows[1] = append(rows[1], "string", "datetime")
+			rows[2] = append(rows[2], "a long note about the description column", "when it was released")
+			for i := 3; i < len(rows); i++ {
+				rows[i] = append(rows[i], "d", "2024-01-02 03:04:05")
+			}
+		}
+		return rows
 	}
-	w.writeCSVBook("", bookSpec{Name: "Item", Sheets: []sheetSpec{{Name: "ItemConf", Rows: mapRows("ItemConf", []int{1, 2}, extra("Item", []string{"100", "New"}))}}})
-	w.writeCSVBook("", bookSpec{Name: "Hero", Sheets: []sheetSpec{{Name: "HeroConf", Rows: mapRows("HeroConf", []int{1}, extra("Hero", []string{"100", "New"}))}}})
-	za := sheetSpec{Name: "ZoneA", Rows: mapRows("ZoneA", []int{1}, extra("ZoneA", []string{"100", "New"})), Meta: map[string]string{"Merger": "Shared*.csv#Extra"}}
-	zb := sheetSpec{Name: "ZoneB", Rows: mapRows("ZoneB", []int{2}, extra("ZoneB", []string{"100", "New"})), Meta: map[string]string{"Merger": "Shared*.csv#Extra"}}
+	bookRows := func(book, name string, ids []int, more [][]string) [][]string {
+		curBook = book
+		return mapRows(name, ids, more)
+	}
+	w.writeCSVBook("", bookSpec{Name: "Item", Sheets: []sheetSpec{{Name: "ItemConf", Rows: bookRows("Item", "ItemConf", []int{1, 2}, extra("Item", []string{"100", "New"}))}}})
+	w.writeCSVBook("", bookSpec{Name: "Hero", Sheets: []sheetSpec{{Name: "HeroConf", Rows: bookRows("Hero", "HeroConf", []int{1}, extra("Hero", []string{"100", "New"}))}}})
+	za := sheetSpec{Name: "ZoneA", Rows: bookRows("ZoneA", "ZoneA", []int{1}, extra("ZoneA", []string{"100", "New"})), Meta: map[string]string{"Merger": "Shared*.csv#Extra"}}
+	zb := sheetSpec{Name: "ZoneB", Rows: bookRows("ZoneB", "ZoneB", []int{2}, extra("ZoneB", []string{"100", "New"})), Meta: map[string]string{"Merger": "Shared*.csv#Extra"}}
 	w.writeCSVBook("", bookSpec{Name: "ZoneA", Sheets: []sheetSpec{za}})
 	w.writeCSVBook("", bookSpec{Name: "ZoneB", Sheets: []sheetSpec{zb}})
 	shared := [][]string{{"ID", "Name"}, {"t", "t"}, {"n", "n"}, {"50", "Old"}}
@@ -139,17 +162,27 @@ func init() {
 	// proto removed only by the full run, files in sub-directories and imports never.
 	regStream("e2e.C18.incremental", func(r *rand.Rand, n int, emit func(string, ...string)) {
 		books := []string{"Item", "Hero", "ZoneA", "ZoneB", "Shared"}
+		kinds := []string{"data", "shrink", "grow"}
 		for i := 0; i < n; i++ {
-			emit("c18.incr", books[i%len(books)])
+			b := books[i%len(books)]
+			k := kinds[(i/len(books))%len(kinds)]
+			if b == "Shared" || strings.HasPrefix(b, "Zone") {
+				k = "data" // a merger source has no schema of its own; the merged sheets share their columns with it
+			}
+			emit("c18.incr", b, k)
 		}
 	})
 	regImpl("c18.incr", func(a []string) string {
 		edited := a[0]
+		kind := "data"
+		if len(a) > 1 {
+			kind = a[1]
+		}
 		w := newWorkspace()
 		defer w.cleanup()
 		ro := runOpts{}
 		// version 1, full run
-		c18Tree(w, "")
+		c18Tree(w, "v1:"+edited, kind)
 		os.WriteFile(filepath.Join(w.Proto, "stale.proto"), []byte("syntax = \"proto3\";\n"), 0o644)
 		os.MkdirAll(filepath.Join(w.Proto, "keep"), 0o755)
 		os.WriteFile(filepath.Join(w.Proto, "keep", "other.proto"), []byte("x"), 0o644)
@@ -167,7 +200,7 @@ func init() {
 			return "SUBDIR-FILE-REMOVED"
 		}
 		// version 2 of the input
-		c18Tree(w, edited)
+		c18Tree(w, edited, kind)
 		inBefore := snapString(snapshot(w.In))
 		spec := edited + "#" + map[string]string{"Item": "ItemConf", "Hero": "HeroConf", "ZoneA": "ZoneA", "ZoneB": "ZoneB", "Shared": "Extra"}[edited] + ".csv"
 		if edited != "Shared" { // the schema does not change, but run the incremental protogen too
@@ -185,7 +218,7 @@ func init() {
 		// fresh full run on version 2
 		w2 := newWorkspace()
 		defer w2.cleanup()
-		c18Tree(w2, edited)
+		c18Tree(w2, edited, kind)
 		os.MkdirAll(filepath.Join(w2.Proto, "keep"), 0o755)
 		os.WriteFile(filepath.Join(w2.Proto, "keep", "other.proto"), []byte("x"), 0o644)
 		os.WriteFile(filepath.Join(w2.Conf, "unrelated.json"), []byte("{}"), 0o644)
